@@ -217,9 +217,8 @@ def leg_replay(legs):
 # ------------------------------------------------------------------------------------------ leg 3: I->S
 
 def trace_cfg(legs, name):
-    return c08.write_cfg(legs.wd, name, spec="TraceSpec", listeners=ALL_LISTENERS, hfronts=["f1", "f2", "f3", "f4"],
-                         backends=["b1", "b2", "b3"], verbs="VerbsAll", afterstop="VerbsAll", maxreq=64, dev=c08_devs(),
-                         faults=True, tail=c08.TRACE_TAIL)
+    # the universe of C08's own trace configuration (the driver picks its listeners from it), with the faults on
+    return c08.write_cfg(legs.wd, name, dev=c08_devs(), faults=True, tail=c08.TRACE_TAIL, **c08.TRACE_KW)
 
 
 def judge(legs, r, trace, summ, tag):
@@ -305,7 +304,7 @@ def leg_trace(legs):
 
 def canary_rejected(legs, tcfg, trace):
     """Remove one `hold` event that explains a refused ActivateListener; TLC must reject the copy."""
-    letter = {"hA": "A", "hB": "B", "tC": "C", "sD": "D", "uE": "E"}
+    letter = {"hA": "A", "hB": "B", "tC": "C", "sD": "D", "uE": "E", "uF": "I", "tG": "J"}
     with open(trace) as f:
         lines = f.readlines()
     evs = [json.loads(l) for l in lines]
